@@ -374,10 +374,19 @@ impl Debugee {
         let base_addr = func.frame_base_addr(ecx, self)?;
         let cfa = dwarf.get_cfa(self, ecx)?;
         let backtrace = self.unwind(ecx.pid_on_focus())?;
+        // several frames can share an instruction pointer (recursion): take the frame in
+        // focus by its number, fall back to a lookup by instruction pointer
+        let in_focus_num = ecx.frame_num() as usize;
         let (bt_frame_num, frame) = backtrace
-            .iter()
-            .enumerate()
-            .find(|(_, frame)| frame.ip == ecx.location().pc)
+            .get(in_focus_num)
+            .filter(|frame| frame.ip == ecx.location().pc)
+            .map(|frame| (in_focus_num, frame))
+            .or_else(|| {
+                backtrace
+                    .iter()
+                    .enumerate()
+                    .find(|(_, frame)| frame.ip == ecx.location().pc)
+            })
             .expect("frame must exists");
         let return_addr = backtrace.get(bt_frame_num + 1).map(|f| f.ip);
         Ok(FrameInfo {
